@@ -44,8 +44,32 @@ func (j c09Job) desc() string {
 	return fmt.Sprintf("%s seed=%d", j.Kind, j.Seed)
 }
 
+// sharedTable is one name table (the kind gennames produces) handed to many Files of this process, as a
+// generator would do; it is read-only for the harness.
+var sharedTable = func() map[string]string {
+	m := map[string]string{}
+	for i := 0; i < 300; i++ {
+		m[fmt.Sprintf("tbl.io/mod%d/store-go", i)] = fmt.Sprintf("store%d", i)
+	}
+	m["tbl.io/mod0/store-go"] = "store"
+	return m
+}()
+
 func (j c09Job) build() *jen.File {
 	switch j.Kind {
+	case "table":
+		// Files sharing one big ImportNames table; some of them add an alias of their own for a path of the table
+		r := rand.New(rand.NewSource(j.Seed))
+		f := jen.NewFile("p")
+		f.ImportNames(sharedTable)
+		k := r.Intn(4)
+		p := fmt.Sprintf("tbl.io/mod%d/store-go", k)
+		if r.Intn(2) == 0 {
+			f.ImportAlias(p, fmt.Sprintf("db%d", r.Intn(3)))
+		}
+		f.Var().Id("v").Op("=").Qual(p, "Open")
+		f.Var().Id("w").Op("=").Qual(fmt.Sprintf("tbl.io/mod%d/store-go", r.Intn(4)), "Open")
+		return f
 	case "scenario":
 		k := scen.DefaultKnobs()
 		k.MaxPaths = 10
@@ -104,6 +128,10 @@ func c09Jobs(r *mon.Run) []c09Job {
 	perm := rnd.Perm(len(items))
 	for i := 0; i < n; i++ {
 		seed := mon.DeriveSeed(r.Seed, "C09/job", int64(i))
+		if i%11 == 10 {
+			jobs = append(jobs, c09Job{Kind: "table", Seed: seed})
+			continue
+		}
 		switch i % 4 {
 		case 0:
 			jobs = append(jobs, c09Job{Kind: "scenario", Seed: seed})
@@ -198,6 +226,64 @@ func runC09(r *mon.Run) {
 			res.note(i, h1, "rendered before another job")
 			res.note(i, jobs[i].run(), "fresh build after another job")
 		}
+	}
+	// concurrent Save: independent Files (many with the same package name) saved to different names in one directory
+	{
+		dir := filepath.Join(mon.VerifDir, "bin", fmt.Sprintf("c09-save-%d", os.Getpid()))
+		os.MkdirAll(dir, 0o755)
+		files := make([]*jen.File, len(jobs))
+		want := make([]string, len(jobs))
+		for i := range jobs {
+			files[i] = jobs[i].build()
+			if files[i] != nil {
+				if src, fail := renderFile(jobs[i].build()); fail == "" {
+					want[i] = string(src)
+				} else {
+					files[i] = nil
+				}
+			}
+		}
+		errs := make([]string, len(jobs))
+		var wg sync.WaitGroup
+		start := make(chan struct{})
+		for g := 0; g < G; g++ {
+			wg.Add(1)
+			go func(g int) {
+				defer wg.Done()
+				<-start
+				for i := g; i < len(jobs); i += G {
+					if files[i] == nil {
+						continue
+					}
+					path := filepath.Join(dir, fmt.Sprintf("f%d.go", i))
+					var err error
+					if p, what := mon.Guard(func() { err = files[i].Save(path) }); p {
+						errs[i] = "panic: " + what
+					} else if err != nil {
+						errs[i] = "error: " + err.Error()
+					} else if b, rerr := os.ReadFile(path); rerr != nil || string(b) != want[i] {
+						errs[i] = fmt.Sprintf("the saved file (%d bytes) differs from the File's own rendering (%d bytes)", len(b), len(want[i]))
+					}
+				}
+			}(g)
+		}
+		close(start)
+		wg.Wait()
+		saved := 0
+		for i, e := range errs {
+			if files[i] != nil {
+				saved++
+			}
+			if e != "" {
+				r.Violate("concurrent-save-interferes", mon.Case{Gen: "job", Seed: r.Seed, Index: int64(i)}, "job %s saved concurrently with other Files into one directory: %s", jobs[i].desc(), e)
+			}
+		}
+		left, _ := os.ReadDir(dir)
+		if len(left) != saved {
+			r.Violate("concurrent-save-interferes", mon.Case{Gen: "save-dir", Seed: r.Seed}, "%d Files were saved but the directory holds %d entries (stray temporary files?)", saved, len(left))
+		}
+		os.RemoveAll(dir)
+		r.Count("files_saved_concurrently", int64(saved))
 	}
 	r.Put("goroutines", G)
 	r.Put("concurrent_rounds", rounds)
